@@ -274,7 +274,9 @@ def t3ify(d):
         for (en, items) in it[1]:
             payload = any(e[0] == 'payload' for e in items)
             def note(kind, ns):
-                sig = {'guards': 'c', 'unless': 'c', 'before': 'm', 'after': 'm', 'around': 'w'}[kind] + ('p' if payload and kind != 'around' else '')
+                # (before and after callbacks have the same Rust signature, but the harness labels each hook function
+                #  with one kind: a name used as both is split, or the trace would call an `after` call a `before`)
+                sig = {'guards': 'c', 'unless': 'c', 'before': 'mb', 'after': 'ma', 'around': 'w'}[kind] + ('p' if payload and kind != 'around' else '')
                 for n in ns:
                     sig_of.setdefault(n, set()).add(sig)
             for e in items:
